@@ -1,6 +1,8 @@
 package props
 
 import (
+	"time"
+	"context"
 	"encoding/json"
 	"fmt"
 	"os"
@@ -158,10 +160,19 @@ func RacePass(c *fw.Ctx, prop string) {
 		c.Count("race_pass_runs", 0)
 		return
 	}
-	cmd := exec.Command(bin, "child", "racepass", prop, c.Dir)
+	// the pass runs free: a thread that blocks for ever (e.g. on a lock a change to the repository leaks) would
+	// hold up the whole check, so the child is given a generous limit and what it printed so far is used
+	ctx, cancel := context.WithTimeout(context.Background(), 240*time.Second)
+	defer cancel()
+	cmd := exec.CommandContext(ctx, bin, "child", "racepass", prop, c.Dir)
 	cmd.Env = append(os.Environ(), "GORACE=halt_on_error=0 exitcode=0", "GOMAXPROCS=16")
 	out, err := cmd.CombinedOutput()
 	text := string(out)
+	if ctx.Err() != nil {
+		c.R.Notes = append(c.R.Notes, "the free-running race pass did not finish within 240 s (a thread blocked); its reports up to then are used")
+		c.Count("race_pass_stalled", 1)
+		err = nil
+	}
 	n := strings.Count(text, "WARNING: DATA RACE")
 	c.Count("race_pass_runs", 1)
 	c.Count("race_reports", int64(n))
